@@ -211,6 +211,8 @@ def make_ks(model, mol, uks, gcfg, mdesc):
     kw = None
     if st.has_nldf:
         kw = dict(aparam=0.04, dparam=0.06, alpha_max=float(mdesc.get("alpha_max", 3000.0)), aux_lambd=1.9)
+        if mdesc.get("lmax"):
+            kw["lmax"] = int(mdesc["lmax"])  # a calculator that asks for a smaller angular cut-off on (possibly shared) grids
         if mdesc.get("zero_d"):
             # numeric options handed over as 0-d arrays (what np.asarray / a config loader give):
             # they are the caller's objects and the initializer is used for several builds
@@ -225,7 +227,7 @@ def make_ks(model, mol, uks, gcfg, mdesc):
         )
     ks = make_cider_calc(ks, model, xmix=mdesc.get("xmix", 0.5), xkernel="GGA_X_PBE", ckernel="GGA_C_PBE", nldf_init=nldf_init)
     ks.grids.verbose = 0
-    ks._verif_kw = (kw, {k: float(v) for k, v in kw.items()}) if kw else None
+    ks._verif_kw = (kw, {k: float(v) for k, v in kw.items()}) if kw else None  # (lmax is an int: float() is exact)
     return ks
 
 
@@ -262,7 +264,7 @@ def gen_ni_history(seed):
     models = []
     for _ in range(nm):
         s, ev, mode, ver = rng.choice(NI_MODELS)
-        models.append({"settings": s, "ev": ev, "mode": mode, "version": ver, "seed": rng.below(10**6), "plan_type": rng.choice(["gaussian", "spline"]), "interp": rng.choice(["onsite_direct", "onsite_spline"]), "xmix": rng.choice([1.0, 0.5, 0.25]), "zero_d": bool(rng.chance(0.3)), "alpha_max": rng.choice([300.0, 1000.0, 3000.0, 3000.0])})
+        models.append({"settings": s, "ev": ev, "mode": mode, "version": ver, "seed": rng.below(10**6), "plan_type": rng.choice(["gaussian", "spline"]), "interp": rng.choice(["onsite_direct", "onsite_spline"]), "xmix": rng.choice([1.0, 0.5, 0.25]), "zero_d": bool(rng.chance(0.3)), "alpha_max": rng.choice([300.0, 1000.0, 3000.0, 3000.0]), "lmax": rng.choice([None, None, None, 6, 8])})
     nmol = rng.randint(1, 3)
     mols = []
     for _ in range(nmol):
